@@ -42,6 +42,8 @@ func verifPatternAlphabet() string {
 		return "ab*?"
 	case 1:
 		return "ab*?[]"
+	case 3:
+		return "ab*?[" // '[' without ']' makes malformed patterns
 	}
 	return "ab*?[]\\-^"
 }
@@ -154,6 +156,9 @@ var verifInvalidKeys = []string{
 	":x,namexnamespace", // invalid key separator: simple form with one unknown sub-key
 }
 
+// glob patterns that filepath.Match rejects (ErrBadPattern) or treats specially
+var verifOddPatterns = []string{"[", "[a-", "a[", "\\", "[]a]", "[^a]", "a\\"}
+
 var verifOpPairs = [][2]Operator{
 	{In, NotIn},
 	{Matches, MatchesNot},
@@ -201,7 +206,13 @@ func VerifC19Duality() {
 			if i > 0 {
 				plen = verifParam("plen2", plen)
 			}
-			values = append(values, verifNondetStringOver("val", plen, verifPatternAlphabet()))
+			if verifParam("constPatterns", 1) != 0 && verifChoice("pattern-kind", 2) == 1 {
+				// malformed or escape-heavy globs, which the alphabet of the symbolic patterns may not reach
+				values = append(values, verifOddPatterns[verifChoice("odd-pattern", len(verifOddPatterns))])
+				verifCover("odd-pattern")
+			} else {
+				values = append(values, verifNondetStringOver("val", plen, verifPatternAlphabet()))
+			}
 		}
 	}
 	pos := &Expression{Key: key, Op: verifOpPairs[pair][0], Values: values}
